@@ -78,6 +78,48 @@ def lane_rule(rep, u, own_file):
     return n
 
 
+def mask_width_rule(rep, u, own_file):
+    """`wide & ~narrow`: the complement of an unsigned value narrower than the other operand is zero-extended, so the
+    mask clears every high bit of the wide operand (lengths >= 2^32 are truncated).  Exact: the implicit widening cast sits
+    directly on the `~`."""
+    from rules.core import walk, key, strip_casts
+    n = 0
+    for fn in u.function_list:
+        if fn.relfile() != own_file or not fn.has_cfg:
+            continue
+        per = 0
+        for pos, root, x, ps in fn.nodes():
+            if x.get("k") != "bin" or x["op"] not in ("&", "&="):
+                continue
+            for a, b in ((x["x"], x["y"]), (x["y"], x["x"])):
+                inner = a
+                widened_from = None
+                while inner.get("k") == "cast":
+                    if inner.get("imp") and inner.get("ck") == "IntegralCast" and "t" in inner and "t" in inner["e"]:
+                        td, ts = u.type(inner["t"]), u.type(inner["e"]["t"])
+                        if td["k"] == "int" and ts["k"] == "int" and td.get("w", 0) > ts.get("w", 0) and not ts.get("sg"):
+                            widened_from = (ts, td)
+                    inner = inner["e"]
+                if inner.get("k") == "un" and inner.get("op") == "~":
+                    n += 1
+                    per += 1
+                    rep.functions.add(fn.name)
+                    inst = "mask:%s#%d" % (key(inner)[:40], per)
+                    desc = "the complement mask %s keeps the high bits of the value it is applied to" % key(inner)[:60]
+                    other = strip_casts(b)
+                    caller_sized = other.get("k") == "ref" and other.get("dk") == "parm"
+                    if widened_from is not None and not caller_sized:
+                        rep.undecided("R-WIDTH", fn, inst, desc, "complement computed in a narrower type than the masked value %s, which is not a "
+                                      "parameter: harmless if that value is known to be small" % key(other)[:40], x.get("ln"))
+                    elif widened_from is not None:
+                        ts, td = widened_from
+                        rep.violated("R-WIDTH", fn, inst, desc, "~ is computed in %s (%d bits) and zero-extended to %s (%d bits): bits %d..%d of "
+                                     "the other operand are always cleared" % (ts["s"], ts["w"], td["s"], td["w"], ts["w"], td["w"] - 1), x.get("ln"))
+                    else:
+                        rep.proved("R-WIDTH", fn, inst, desc, "computed in the width of the masked value", x.get("ln"))
+    return n
+
+
 def run(rep, tier):
     specs = hashes.units(tier)
     us = driver.load_units([s for (_, _, s) in specs])
@@ -92,6 +134,10 @@ def run(rep, tier):
     for (h, lab, s) in specs:
         nl += lane_rule(rep, us[s.label], "include/" + hashes.HASHES[h]["hdr"])
     rep.floor("block-load macro expansions", nl, 4)
+    nm = 0
+    for (h, lab, s) in specs:
+        nm += mask_width_rule(rep, us[s.label], "include/" + hashes.HASHES[h]["hdr"])
+    rep.floor("complement masks in the hash headers", nm, 4)
     from props import c04_tables, c04_more
     c04_tables.run(rep, specs, us, tier)
     c04_more.run(rep, specs, us, tier)
